@@ -600,7 +600,9 @@ class Frame:
                         if isinstance(x, ast.Name):
                             names.add(x.id)
                 elif isinstance(n, ast.Call) and isinstance(n.func, ast.Attribute) and \
-                        n.func.attr in ("append", "pop", "remove", "extend", "insert", "sort", "setdefault", "update", "clear") \
+                        n.func.attr in ("append", "pop", "remove", "extend", "insert", "sort", "setdefault", "update", "clear",
+                                        "plot", "scatter", "errorbar", "bar", "legend", "grid", "set_title", "set_xlabel",
+                                        "set_ylabel", "set_xlim", "set_ylim", "fill_between", "annotate", "text") \
                         and isinstance(n.func.value, ast.Name):
                     mutated.add(n.func.value.id)
                 elif isinstance(n, ast.comprehension):
@@ -869,6 +871,8 @@ class Frame:
             hook = I.models.get("getattr:" + base.cls)
             if hook is not None:
                 return hook(I, base, attr)
+            if base.fields.get("__recorder__"):
+                return BoundBuiltin(base, attr)
             raise PyRaise("AttributeError", f"'{base.cls}' object has no attribute '{attr}'")
         if isinstance(base, RepoCls):
             if attr == "__name__":
